@@ -6,8 +6,9 @@
        nodes entered after the deadline, nodes entered after the first true poll (must be none), the
        largest gap in nodes between two consecutive polls (a missing poll in one loop shows as a gap of
        the size of that subtree).  TLC validates the bounds (PromptTrace.tla).
-  wall clock: `go movetime T` on the explosive positions through the real binary, recorded; only a
-       gross overrun (T + 5 s) counts.
+  wall clock: `go movetime T` / clock lines on the explosive positions through the real binary; the budget is the
+       one the real parser hands to the search (hook); a case fails when the SMALLEST overrun over up to 5
+       repetitions exceeds 500 ms (scheduling noise only adds).
 """
 import json
 import os
@@ -19,8 +20,13 @@ import searchmc
 import vlib
 from vlib import ToolError, log
 
-TIERS = {"quick": dict(cap=4000, samples=12, maxdepth=4, shards=16, wall=3),
-         "thorough": dict(cap=60000, samples=150, maxdepth=6, shards=16, wall=16)}
+TIERS = {"quick": dict(cap=4000, samples=12, maxdepth=4, shards=16, wall=3,
+                       wall_go=["go movetime 20", "go movetime 400", "go wtime 15000 btime 15000 winc 0 binc 0"]),
+         "thorough": dict(cap=60000, samples=150, maxdepth=6, shards=16, wall=16,
+                          wall_go=["go movetime 20", "go movetime 400", "go movetime 1500", "go wtime 15000 btime 15000 winc 0 binc 0",
+                                   "go btime 9000 wtime 9000 binc 300 winc 300", "go depth 40 movetime 250"])}
+WALL_REPS = 5
+WALL_TOL_MS = 500
 
 
 def _fens():
@@ -80,31 +86,57 @@ def run(prop, tier, seed):
         R.coverage["traces_validated_against_impl"] = events
         R.coverage["budget_runs"] = {"events_matched": events, "positions": len(_fens()), "largest_gap_between_polls_seen": agg["max_gap"],
                                      "most_nodes_after_a_deadline_seen": agg["max_after"]}
-        # wall clock (recorded; only a gross overrun counts)
+        # wall clock.  The node / poll budgets above replace SearchTimer's own comparison of elapsed time and limit, so the
+        # path go -> Duration -> timer.start -> `elapsed >= limit` is only exercised here.  Scheduling noise can only ADD to
+        # an answer time, so a case is repeated (up to WALL_REPS times) until one run answers within the tolerance: the
+        # verdict is on the MINIMUM overrun.  The budget B of a clock line is the one the engine's own parser hands to the
+        # search (hook, as in C12) - the property does not pin the allocation.
         eng = vlib.build_engine()
         wall = []
+        cases = []
         for fen in _fens()[:T["wall"]]:
-            for ms in (20, 200):
+            for go in T["wall_go"]:
+                cases.append((fen, go))
+        bsrc = os.path.join(work, "wall_cases.ndjson")
+        with open(bsrc, "w") as f:
+            for fen, go in cases:
+                f.write(json.dumps({"k": "side", "text": "position fen %s 0 1" % fen, "stm": fen.split()[1]}) + "\n")
+                f.write(json.dumps({"k": "go", "text": go, "go": {}}) + "\n")
+        bout = os.path.join(work, "wall_budgets.ndjson")
+        vlib.run_harness(exe, ["uci-budgets", "--in", bsrc, "--out", bout])
+        budgets = [json.loads(l) for l in open(bout) if '"ev":"go"' in l]
+        if len(budgets) != len(cases):
+            raise ToolError("budget capture returned %d of %d go lines" % (len(budgets), len(cases)))
+        for (fen, go), b in zip(cases, budgets):
+            ms = b.get("budget", -1)
+            if ms is None or ms < 0 or b.get("depth", 0) < 20:
+                continue            # no time limit parsed from this line: nothing to measure
+            overs, st = [], None
+            for rep in range(WALL_REPS):
                 e = proc.Engine(eng)
                 try:
                     e.command("position fen %s 0 1" % fen, "position", 20)
                     t0 = time.time()
-                    lines, st = e.command("go movetime %d" % ms, "go", 30)
+                    lines, st = e.command(go, "go", 30 + ms / 1000.0)
                     dt = (time.time() - t0) * 1000
-                    wall.append({"fen": fen, "movetime_ms": ms, "answered_after_ms": round(dt, 1), "status": st})
-                    if st != "fence" or dt > ms + 5000:
-                        R.violation("C07:wallclock:%s:%d" % (fen, ms),
-                                    "C07 [wall clock] 'go movetime %d' on '%s' answered after %.0f ms (status %s): more than 5 s over the budget" % (ms, fen, dt, st),
-                                    {"kind": "wall", "fen": fen, "movetime": ms})
                 finally:
                     e.kill()
+                overs.append(round(dt - ms, 1))
+                if st != "fence" or dt - ms <= WALL_TOL_MS:
+                    break
+            wall.append({"fen": fen, "go": go, "budget_ms": ms, "overrun_ms_per_repetition": overs, "status": st})
+            if st != "fence" or min(overs) > WALL_TOL_MS:
+                R.violation("C07:wallclock:%s:%s" % (fen, go),
+                            "C07 [wall clock] '%s' on '%s' (budget %d ms handed to the search): answered %s ms after the budget in %d "
+                            "repetitions (status %s) - the smallest overrun exceeds %d ms" % (go, fen, ms, overs, len(overs), st, WALL_TOL_MS),
+                            {"kind": "wall", "fen": fen, "go": go})
         R.coverage["wall_clock_recorded"] = wall[:12]
         log("[C07] %d budget runs matched, largest poll gap %d, most nodes after a deadline %d, %d wall-clock runs, %d violations" % (
             events, agg["max_gap"], agg["max_after"], len(wall), len(R.violations)))
     finally:
         shutil.rmtree(work, ignore_errors=True)
     R.assumptions = ["TLC/SANY/CommunityModules", "the small-constant clause is decided in node units (deadline expressed in nodes / polls), "
-                     "milliseconds are recorded and only an overrun of more than 5 s fails the check",
+                     "in milliseconds only an overrun of more than 500 ms in each of 5 repetitions fails the check (scheduling noise can only add)",
                      "bounds (1 node after a node-budget deadline, 2 nodes between polls) are those model-checked on Search.tla"]
     return R
 
